@@ -405,8 +405,9 @@ def w_gmrf(ctx, rng, i):
     Q1, Q2 = gmrfmon.dense(m.precision), gmrfmon.dense(m2.precision)
     nrm = max(1e-300, np.abs(Q2).max())
     ctx.tap("split_vs_split", "calls"); ctx.tap("split_vs_split", "checked")
-    if _amax(Q1 - Q2) > (cond_tol(X) if dtype == np.float64 else 1e-3) * nrm:
-        ctx.fail("two_splittings_of_the_same_data_disagree", cls="GMRFVectorModel", mech="%s:%s" % ("sparse" if sparse else "dense", mode))
+    if _amax(Q1 - Q2) > (cond_tol(X) if dtype == np.float64 else max(2e-3, 2e4 * cond_tol(X))) * nrm:     # (single precision running moments: 1e-7 x cond, two different summation orders)
+        ctx.fail("two_splittings_of_the_same_data_disagree", cls="GMRFVectorModel", mech="%s:%s" % ("sparse" if sparse else "dense", mode),
+                 rel_err=_amax(Q1 - Q2) / nrm, tolerance=cond_tol(X) if dtype == np.float64 else 1e-3, integer_typed=str(idt), dtype=np.dtype(dtype).name, graph=kind, k=k, n0=n0, increments=incs)
     # a model that was not built incremental refuses increments
     nm = GMRFVectorModel(X[:n0].copy(), g, mode=mode, sparse=sparse, bias=bias, incremental=False)
     try:
